@@ -20,30 +20,12 @@ MANIFEST = dict(
     technique='Lean 4 functional-induction proofs over the operand grammar + C01 round-trip lemma; differential correspondence incl. sanitizer build')
 ASSUMPTIONS = ['element comparison of the C++ (== on a promoted common type) is equality on the mathematical values for the int data used',
                'compile-time rejected pairings (different tuple sizes, number vs array) are not run-time behaviour']
-PARTIAL = ['isclose_eq_ref: the code equals the reference (caller eps on every element) only where no either-vs-plain branch is taken or eps is the default; '
-           'on the remaining class the unchanged code violates the property (isclose_either_plain_counterexample, finding isclose.either-plain-eps)']
+PARTIAL = []
 
 EITHER_W = ('left', 'right', 'jleft', 'jright', 'lj', 'ln', 'mr')
 
 
-def _kv(req):
-    return dict(t.split('=', 1) for t in req.split()[1:] if '=' in t)
-
-
-def isclose_either_plain(case):
-    """input class of finding isclose.either-plain-eps: isclose with an explicit tolerance where exactly one operand is (or, being
-    an engaged optional, holds) an either and the other a plain / optional value - detail::isclose then calls isclose(*ptr,u)
-    WITHOUT eps.  Decided from the request alone."""
-    if not case.req.startswith('disp '):
-        return False
-    a = _kv(case.req)
-    if a.get('fn') != 'isclose' or 'eps' not in a:
-        return False
-    aw, bw = a.get('aw', 'plain'), a.get('bw', 'plain')
-    return ((aw in EITHER_W) != (bw in EITHER_W)) and (aw in ('plain', 'just') or bw in ('plain', 'just'))
-
-
-KNOWN_PREDICATES = {'isclose_either_plain': isclose_either_plain}
+KNOWN_PREDICATES = {}
 
 
 def harness_specs(tier):
@@ -197,13 +179,12 @@ def gen_disp(tier):
                     continue
                 c = Case(req, hs_cl[0], oracle=orc, nontrivial=(orc != 'not-accepted'),
                          tags=['dispatch', 'isclose', 'a=' + x[1], 'b=' + y[1], 'eps=%s' % eps])
-                # the either-vs-plain branches drop the tolerance (finding isclose.either-plain-eps): off the theorem domain
-                c.dom = not isclose_either_plain(c)
+                # incl. the either-vs-plain branches, which dropped the tolerance before the fix commit (former finding
+                # isclose.either-plain-eps; regression: isclose_either_plain_regression)
                 yield c
                 n += 1
                 if tier != 'quick' or n % 3 == 0:
                     c2 = Case(req, hs_cl[1], oracle=orc, nontrivial=(orc != 'not-accepted'), tags=list(c.tags))
-                    c2.dom = c.dom
                     yield c2
 
 
